@@ -40,7 +40,14 @@ FlawAt(t) == LET c == MkCfg(t) IN
       agree |-> \A i \in 1..c.nC, s \in 1..c.nS :
                   /\ FLaw(c, x, i, s, TRUE) = FEngine(c, x, i, s, TRUE)
                   /\ FLaw(c, x, i, s, FALSE) = FEngine(c, x, i, s, FALSE),
-      euler |-> EulerRes(c, x, Rq(t.dt))]]
+      gross |-> [i \in 1..c.nC |-> [s \in 1..c.nS |-> FGross(c, x, i, s)]],
+      euler |-> EulerRes(c, x, Rq(t.dt)),
+      (* design-level statements about one Euler step, in exact arithmetic *)
+      eulerConserves |-> \A v \in ConsLaws(c) : RTotal(c, v, EulerRes(c, x, Rq(t.dt))) = RTotal(c, v, x),
+      eulerHoldsChem |-> \A i \in 1..c.nC, s \in 1..c.nS : c.chs[i][s] => EulerRes(c, x, Rq(t.dt))[i][s] = x[i][s],
+      chemZero  |-> \A i \in 1..c.nC, s \in 1..c.nS : c.chs[i][s] => FLaw(c, x, i, s, TRUE) = Zero,
+      restSame  |-> \A i \in 1..c.nC, s \in 1..c.nS : ~c.chs[i][s] => FLaw(c, x, i, s, TRUE) = FLaw(c, x, i, s, FALSE),
+      nlaws |-> Cardinality(ConsLaws(c))]]
 
 Result ==
   CASE Mode = "laws"  -> [i \in 1..Len(In) |-> Laws(In[i])]
